@@ -311,6 +311,7 @@ namespace
                 catch (const std::exception &e) { if (world.error.empty()) world.error = std::string{"thread "} + std::to_string(i) + " threw: " + e.what(); }
             });
         vs::S().clock_jump_ns = clock_jump_ns;
+        vs::S().spurious = false;
         trace_out = vs::run_controlled(std::move(bodies), prefix, 1'700'000'000'000'000'000LL);
         vs::S().clock_jump_ns = 0;
         vs::ExecResult r;
